@@ -108,21 +108,24 @@ Print Assumptions C02_error_path_preserves_discipline.
      thread foo 1 2
      try { throw bar 5 } catch { bar local.q: println "caught " local.q }
      end
-     foo local.x local.y: println local.x local.y; end *)
+     foo local.x local.y: println local.x local.y; end
+   with the event numbers of `throw` and `end` taken from the current binary (Generated.v) *)
+(* an event number that is none of the control events *)
+Definition ev_plain : N := 1 + fold_right N.max 0 control_events.
 Definition example_code : list N := [
-13; 3; 49; 7; 0; 0; 0; 0; 0; 0; 0; 20; 8; 0; 0; 0; 71; 7; 0; 0; 0; 0; 0; 0; 0; 28; 47; 0; 0; 0; 12;
+13; 3; 49; 7; 0; 0; 0; 0; 0; 0; 0; 20; 8; 0; 0; 0; 71; 7; 0; 0; 0; 0; 0; 0; 0; 28; ev_plain; 0; 0; 0; 12;
 49; 9; 0; 0; 0; 0; 0; 0; 0; 71; 9; 0; 0; 0; 0; 0; 0; 0; 13; 3; 90; 3; 104; 0; 0; 0; 71; 9; 0; 0; 0;
 0; 0; 0; 0; 13; 1; 88; 3; 5; 0; 0; 0; 10; 58; 0; 0; 0; 71; 9; 0; 0; 0; 0; 0; 0; 0; 108; 140; 54; 0;
-0; 16; 98; 0; 0; 10; 35; 0; 0; 0; 20; 11; 0; 0; 0; 27; 47; 0; 0; 0; 10; 20; 0; 0; 0; 20; 13; 0; 0;
-0; 27; 47; 0; 0; 0; 20; 14; 0; 0; 0; 27; 47; 0; 0; 0; 71; 9; 0; 0; 0; 0; 0; 0; 0; 105; 49; 9; 0; 0;
-0; 0; 0; 0; 0; 11; 117; 0; 0; 0; 20; 15; 0; 0; 0; 13; 1; 13; 2; 29; 6; 0; 0; 0; 20; 16; 0; 0; 0; 13;
-5; 28; 18; 0; 0; 0; 10; 31; 0; 0; 0; 59; 60; 49; 17; 0; 0; 0; 0; 0; 0; 0; 61; 20; 18; 0; 0; 0; 71;
-17; 0; 0; 0; 0; 0; 0; 0; 28; 47; 0; 0; 0; 26; 39; 0; 0; 0; 59; 60; 49; 19; 0; 0; 0; 0; 0; 0; 0; 60;
-49; 20; 0; 0; 0; 0; 0; 0; 0; 61; 71; 19; 0; 0; 0; 0; 0; 0; 0; 71; 20; 0; 0; 0; 0; 0; 0; 0; 28; 47;
-0; 0; 0; 26; 39; 0; 0; 0; 0; 0; 0].
+0; 16; 98; 0; 0; 10; 35; 0; 0; 0; 20; 11; 0; 0; 0; 27; ev_plain; 0; 0; 0; 10; 20; 0; 0; 0; 20; 13; 0; 0;
+0; 27; ev_plain; 0; 0; 0; 20; 14; 0; 0; 0; 27; ev_plain; 0; 0; 0; 71; 9; 0; 0; 0; 0; 0; 0; 0; 105; 49; 9; 0; 0;
+0; 0; 0; 0; 0; 11; 117; 0; 0; 0; 20; 15; 0; 0; 0; 13; 1; 13; 2; 29; ev_plain; 0; 0; 0; 20; 16; 0; 0; 0; 13;
+5; 28; ev_throw; 0; 0; 0; 10; 31; 0; 0; 0; 59; 60; 49; 17; 0; 0; 0; 0; 0; 0; 0; 61; 20; 18; 0; 0; 0; 71;
+17; 0; 0; 0; 0; 0; 0; 0; 28; ev_plain; 0; 0; 0; 26; ev_end; 0; 0; 0; 59; 60; 49; 19; 0; 0; 0; 0; 0; 0; 0; 60;
+49; 20; 0; 0; 0; 0; 0; 0; 0; 61; 71; 19; 0; 0; 0; 0; 0; 0; 0; 71; 20; 0; 0; 0; 0; 0; 0; 0; 28; ev_plain;
+0; 0; 0; 26; ev_end; 0; 0; 0; 0; 0; 0].
 
 Definition example_with (code : list N) (stack : N) : program :=
-  mkProgram (code_of_list code) 281 stack 20 126 142 [(107820859012748, [102; 117; 127])]
+  mkProgram (code_of_list code) 281 stack 20 126 100000 [(107820859012748, [102; 117; 127])]
             [0; 102; 117; 127; 192; 228].
 Definition example_prog : program := example_with example_code 31.
 
@@ -164,6 +167,6 @@ Proof. vm_compute. reflexivity. Qed.
 (* a switch operand that is not one of the program's tables *)
 Example dangling_switch_is_rejected : verify 3000 (example_with (set_nth example_code 93 141) 31) = false.
 Proof. vm_compute. reflexivity. Qed.
-(* `end` (event 39) with two values left on the stack: the OP_EXEC_CMD2 println at 218 replaced by OP_EXEC_CMD0 end *)
-Example end_with_operand_left_is_rejected : verify 3000 (example_with (set_nth (set_nth example_code 218 OP_EXEC_CMD0) 219 39) 31) = false.
+(* `end` with two values left on the stack: the OP_EXEC_CMD2 println at 218 replaced by OP_EXEC_CMD0 end *)
+Example end_with_operand_left_is_rejected : verify 3000 (example_with (set_nth (set_nth example_code 218 OP_EXEC_CMD0) 219 ev_end) 31) = false.
 Proof. vm_compute. reflexivity. Qed.
